@@ -9,7 +9,8 @@ Record case := mk_case {
   o_where : string;                  (* the WHERE text gorm built, arguments inlined ("" = none) *)
   o_find : list Z; o_count : Z; o_update : list Z; o_delete : list Z;
   o_same : list (list Z);            (* Pluck, Scan, Rows, FindInBatches, Updates(map), UpdateColumn *)
-  o_one : list (list Z);             (* First, Last, Take: the id returned, [] = record not found *)
+  o_one : list (list Z);             (* single-record reads: kind (0 First, 1 Last, 2 Take / Find into one
+                                        record) followed by the id returned (nothing = record not found) *)
   o_errs : Z
 }.
 
@@ -61,16 +62,18 @@ Definition spec_holds (c : case) : bool :=
     && zlist_eqb (o_update c) ids
     && zlist_eqb (o_delete c) ids
     && forallb (fun l => zlist_eqb l ids) (o_same c)
-    && match o_one c with
-       | [f; l; t] =>
-         zlist_eqb f (firstn 1 ids) && zlist_eqb l (firstn 1 (rev ids))
-         && match t with
-            | [] => match ids with [] => true | _ => false end
-            | [x] => existsb (Z.eqb x) ids
-            | _ => false
-            end
-       | _ => false
-       end
+    && forallb (fun kr =>
+         match kr with
+         | 0%Z :: r => zlist_eqb r (firstn 1 ids)              (* First: the lowest selected row *)
+         | 1%Z :: r => zlist_eqb r (firstn 1 (rev ids))        (* Last: the highest *)
+         | 2%Z :: r =>                                         (* Take / Find into one record: some selected row *)
+           match r with
+           | [] => match ids with [] => true | _ => false end
+           | [x] => existsb (Z.eqb x) ids
+           | _ => false
+           end
+         | _ => false
+         end) (o_one c)
   | None => false
   end.
 
